@@ -254,7 +254,7 @@ def run(tier, repo):
             elif s[0] == "switch":
                 alts = sorted(set(tuple(wskel(g2)) for _, g2 in s[2]))
                 # Option written as opaque<N>: None -> length 0, Some -> length + bytes
-                if len(alts) == 2 and any(a == (("U", alts[0][0][1]),) for a in alts) and any(len(a) == 1 and a[0][0] == "L" for a in alts):
+                if len(alts) == 2 and all(len(a) >= 1 for a in alts) and any(a == (("U", alts[0][0][1]),) for a in alts) and any(len(a) == 1 and a[0][0] == "L" for a in alts):
                     out.append(("L", alts[0][0][1], "done"))
                 else:
                     out.append(("S", tuple(alts)))
